@@ -8,7 +8,7 @@ from scipy import ndimage
 from scipy.spatial import Delaunay
 import shapely
 import shapely.geometry as sg
-from shapely.ops import unary_union, polygonize
+from shapely.ops import unary_union, polygonize, linemerge
 from shapely.validation import make_valid
 
 from pero_ocr.core.layout import TextLine
@@ -347,6 +347,9 @@ def mask_textline_by_region(baseline, textline, region):
     if isinstance(textline_is, sg.MultiPolygon):  # this can happen generally with some combinations of layout and line detection
         areas = np.array([poly.area for poly in textline_is.geoms])
         textline_is = textline_is.geoms[np.argmax(areas)]
+    if isinstance(baseline_is, sg.MultiLineString):
+        # a stretch running along the region boundary comes back split at the baseline's own points
+        baseline_is = linemerge(baseline_is)
     if isinstance(baseline_is, sg.MultiLineString):  # this can happen generally with some combinations of layout and line detection
         lengths = np.array([line.length for line in baseline_is.geoms])
         baseline_is = baseline_is.geoms[np.argmax(lengths)]
